@@ -18,6 +18,9 @@ func vhSameTx(a, b *ethtypes.Transaction) bool {
 // the queue keeps the exact suffix; nothing is written when nothing is due.
 func VH_C06_dequeue_bitcoin(h *vrt.H) {
 	maxQ := 9
+	if h.Thorough() {
+		maxQ = 12
+	}
 	k, ctx := vhKeeper(h, &vhRelayer{})
 	nDep, nPaid, nRej := h.Choose("deposits", 0, maxQ), h.Choose("paid", 0, maxQ), h.Choose("refunds", 0, maxQ)
 	var q types.EthTxQueue
